@@ -14,6 +14,7 @@
 -/
 import Koreo.Lemmas.WorkflowAsync
 import Koreo.Lemmas.WorkflowSchedule
+import Koreo.Lemmas.WorkflowNested
 import Koreo.Gen.WorkflowConsts
 
 namespace Koreo.C02
@@ -158,6 +159,73 @@ theorem overall_is_combine_listed (hwf : wf.WF = true) (σ : List Event)
     simp only
     rw [listed_trace eval run trig wf hwf]
 
+/-! ## nested schedules: inner steps of sub-workflows interleaved with outer steps
+
+`Koreo/WorkflowNested.lean`: events are addressed by a path (`inside l idx e`: event `e` of the sub-workflow invocation
+made by step `l`, for its forEach iteration `idx` if any); an inner event is enabled when the enclosing step has started
+(dependencies done, gate passed, the Logic evaluated there is a sub-workflow with a definition) and the event is enabled
+inside that invocation; the enclosing step / iteration completes only after all inner steps, with the inner result
+collected in the inner LISTED order.  The reference is `reconcile` with `run := runAt eval base defs n`
+(sub-workflows reconciled sequentially, `n` levels deep).  `defs` must hold well-formed definitions. -/
+
+variable (base : RunFn) (defs : Env)
+
+/-- the invariant made visible at every nesting level: after any executable nested prefix, whatever has finished
+    in the top invocation carries the sequential reference value (and so, recursively, in every nested one: `NInv`) -/
+theorem partial_nested_schedule_agrees (hdefs : ∀ name w, lookupL name defs = some w → w.WF = true)
+    (n : Nat) (hwf : wf.WF = true) (σ : List NEvent) {st : NState}
+    (h : nrunEvents eval base defs n wf trig σ .empty = some st) :
+    NInv eval base defs n wf trig st ∧
+    ∀ l o, lookupL l st.top.done = some o →
+      lookupL l (trace eval (runAt eval base defs n) trig wf).results = some o := by
+  have inv := ninv_run eval base defs hdefs n wf trig hwf σ (ninv_empty eval base defs n wf trig) h
+  exact ⟨inv, inv.topInv.done_ref⟩
+
+/-- **C02, nested**: for EVERY valid complete nested schedule — inner and outer completion events interleaved in
+    any enabled order, at ANY nesting depth `n`, any number of steps / items / invocations — the asynchronous run
+    returns exactly the sequential reference result -/
+theorem schedule_independent_nested (hdefs : ∀ name w, lookupL name defs = some w → w.WF = true)
+    (n : Nat) (hwf : wf.WF = true) (σ : List NEvent)
+    (h : ValidCompleteNested eval base defs n trig wf σ) :
+    runAsyncNested eval base defs n trig wf σ = some (reconcile eval (runAt eval base defs n) trig wf) := by
+  obtain ⟨st, hrun, hall⟩ := h
+  have inv := ninv_run eval base defs hdefs n wf trig hwf σ (ninv_empty eval base defs n wf trig) hrun
+  unfold runAsyncNested reconcile
+  rw [hrun]
+  simp only [Option.map_some, Option.some.injEq]
+  exact collect_of_complete inv.topInv hall
+
+/-- two nested schedules never disagree, and a nested schedule never disagrees with a flat one (in which every
+    sub-workflow step is atomic) -/
+theorem nested_schedules_agree (hdefs : ∀ name w, lookupL name defs = some w → w.WF = true)
+    (n : Nat) (hwf : wf.WF = true) (σ₁ σ₂ : List NEvent) (τ : List Event)
+    (h₁ : ValidCompleteNested eval base defs n trig wf σ₁) (h₂ : ValidCompleteNested eval base defs n trig wf σ₂)
+    (h₃ : ValidComplete eval (runAt eval base defs n) trig wf τ) :
+    runAsyncNested eval base defs n trig wf σ₁ = runAsyncNested eval base defs n trig wf σ₂ ∧
+    runAsyncNested eval base defs n trig wf σ₁ = runAsync eval (runAt eval base defs n) trig wf τ := by
+  rw [schedule_independent_nested eval trig wf base defs hdefs n hwf σ₁ h₁,
+    schedule_independent_nested eval trig wf base defs hdefs n hwf σ₂ h₂,
+    schedule_independent eval _ trig wf hwf τ h₃]
+  exact ⟨rfl, rfl⟩
+
+/-- at depth 0 (nothing is looked inside) a nested schedule is a flat one -/
+theorem nested_depth_zero (σ : List Event) (st : AState)
+    (h : runEvents eval base trig wf σ {} = some st) :
+    (nrunEvents eval base defs 0 wf trig (σ.map .here) .empty).map (·.top) = some st := by
+  have key : ∀ (σ : List Event) (a : AState) (subs : List (Frame × NState)),
+      (nrunEvents eval base defs 0 wf trig (σ.map .here) (.mk a subs)).map (·.top) =
+        runEvents eval base trig wf σ a := by
+    intro σ
+    induction σ with
+    | nil => intro a subs; rfl
+    | cons e rest ih =>
+      intro a subs
+      simp only [List.map_cons, nrunEvents, nstep, runEvents, NState.top, NState.subs]
+      cases stepEvent eval base trig wf a e with
+      | none => rfl
+      | some a' => exact ih a' subs
+  rw [← h]; exact key σ {} []
+
 /-! ## the model's condition table is the one the source has now -/
 
 /-- the translator understood `_condition_helper` (one `reason` per outcome class, constant `status`) and
@@ -247,5 +315,78 @@ example : ((runAsync evalStd exRun .null exWf reversedOrder).map fun r =>
 example : runEvents evalStd exRun .null exWf [.step "z"] {} = none := by decide
 example : runEvents evalStd exRun .null exWf [.step "a", .step "each"] {} = none := by decide
 end example_
+
+/-! ### nested non-vacuity: inner steps of two sub-workflow invocations interleaved with outer steps -/
+
+section nested_example
+def nDefs : Env :=
+  [("sub", { name := "sub"
+             steps := [
+               { label := "in0", logic := .ref (.fn "g"), inputs := some (.mapE [("p", .path "parent" ["p"])]),
+                 state := some (.mapE [("first", .path "value" ["got", "p"])]) },
+               { label := "in1", deps := ["in0"], logic := .ref (.fn "f"),
+                 state := some (.mapE [("second", .path "steps" ["nope"])]) } ] })]
+
+/-- `s` runs the sub-workflow once, `each` once per item, `z` joins -/
+def nWf : Workflow :=
+  { name := "outer"
+    steps := [
+      { label := "a", logic := .ref (.fn "f") },
+      { label := "s", deps := ["a"], logic := .ref (.wf "sub"),
+        inputs := some (.mapE [("p", .path "steps" ["a", "site"])]), cond := some ("Cs", "s") },
+      { label := "each", logic := .ref (.wf "sub"), inputs := some (.mapE [("k", .lit (.int 1))]),
+        forEach := some ⟨.lit (.arr [.str "x", .str "y"]), "p"⟩ },
+      { label := "z", deps := ["s", "each"], logic := .ref (.fn "g") } ] }
+
+/-- inner events of `s`, of iteration 1 and of iteration 0 interleaved with each other and with outer events -/
+def nSchedule : List NEvent :=
+  [ .inside "each" (some 1) (.here (.step "in0")),
+    .here (.step "a"),
+    .inside "s" none (.here (.step "in0")),
+    .inside "each" (some 0) (.here (.step "in0")),
+    .inside "each" (some 1) (.here (.step "in1")),
+    .inside "s" none (.here (.step "in1")),
+    .here (.item "each" 1),
+    .here (.step "s"),
+    .inside "each" (some 0) (.here (.step "in1")),
+    .here (.item "each" 0),
+    .here (.step "each"),
+    .here (.step "z") ]
+
+example : nWf.WF = true ∧ ∀ name w, lookupL name nDefs = some w → w.WF = true := by
+  refine ⟨by decide, ?_⟩
+  intro name w h
+  simp only [nDefs, lookupL] at h
+  split at h
+  · cases h; decide
+  · cases h
+
+private theorem nSchedule_valid : ValidCompleteNested evalStd exRun nDefs 1 .null nWf nSchedule := by
+  have : (match nrunEvents evalStd exRun nDefs 1 nWf .null nSchedule .empty with
+     | some st => allDone nWf st.top
+     | none => false) = true := by decide
+  cases h : nrunEvents evalStd exRun nDefs 1 nWf .null nSchedule .empty with
+  | none => simp [h] at this
+  | some st =>
+    simp only [h, allDone, List.all_eq_true] at this
+    exact ⟨st, h, this⟩
+
+example : runAsyncNested evalStd exRun nDefs 1 .null nWf nSchedule =
+    some (reconcile evalStd (runAt evalStd exRun nDefs 1) .null nWf) :=
+  schedule_independent_nested evalStd .null nWf exRun nDefs
+    (by intro name w h
+        simp only [nDefs, lookupL] at h
+        split at h
+        · cases h; decide
+        · cases h)
+    1 (by decide) nSchedule nSchedule_valid
+
+/-- an outer step may not complete before the inner steps of its sub-workflow, an inner step not before the
+    enclosing step's dependencies -/
+example : nrunEvents evalStd exRun nDefs 1 nWf .null [.here (.step "a"), .here (.step "s")] .empty = none := by
+  decide
+example : nrunEvents evalStd exRun nDefs 1 nWf .null [.inside "s" none (.here (.step "in0"))] .empty = none := by
+  decide
+end nested_example
 
 end Koreo.C02
